@@ -108,6 +108,61 @@ pub fn redirect_stdio_to_devnull() {
     }
 }
 
+/// stdout / stderr of the worker go to two capture files (inside the chroot) so that what the
+/// code under test physically prints can be observed per simulated process.
+pub fn redirect_stdio_to_capture_files() -> bool {
+    unsafe {
+        let flags = libc::O_CREAT | libc::O_RDWR | libc::O_APPEND | libc::O_TRUNC;
+        let out = libc::open(c"/stdout.cap".as_ptr(), flags, 0o600);
+        let err = libc::open(c"/stderr.cap".as_ptr(), flags, 0o600);
+        if out < 0 || err < 0 {
+            return false;
+        }
+        libc::dup2(out, 1);
+        libc::dup2(err, 2);
+        libc::close(out);
+        libc::close(err);
+        true
+    }
+}
+
+pub fn capture_begin() {
+    use std::io::Write;
+    let _ = std::io::stdout().flush();
+    let _ = std::io::stderr().flush();
+    unsafe {
+        libc::ftruncate(1, 0);
+        libc::ftruncate(2, 0);
+    }
+}
+
+/// Returns what was written to stdout and stderr since `capture_begin`.
+pub fn capture_end() -> (String, String) {
+    use std::io::Write;
+    let _ = std::io::stdout().flush();
+    let _ = std::io::stderr().flush();
+    let out = std::fs::read("/stdout.cap").unwrap_or_default();
+    let err = std::fs::read("/stderr.cap").unwrap_or_default();
+    (String::from_utf8_lossy(&out).to_string(), String::from_utf8_lossy(&err).to_string())
+}
+
+pub fn strip_ansi(s: &str) -> String {
+    let mut out = String::new();
+    let mut chars = s.chars();
+    while let Some(c) = chars.next() {
+        if c == '\u{1b}' {
+            for d in chars.by_ref() {
+                if d.is_ascii_alphabetic() {
+                    break;
+                }
+            }
+        } else {
+            out.push(c);
+        }
+    }
+    out
+}
+
 // ---------------------------------------------------------------------------------------------
 // Panics: quiet hook, message and location kept per thread.
 
